@@ -379,6 +379,9 @@ func (a *Analysis) ruleWiring() {
 						a.add("C15", "C15.optional", "optional-swallow", "r%d#%d: optional field %s is registered, its construction failed, and the failure was swallowed (field left nil)", inv.Reg, inv.N, dep)
 					} else {
 						a.add("C04", "C04.args", "nil-arg/"+regShape(r), "r%d#%d: parameter %s is registered (r%d) but nil was injected", inv.Reg, inv.N, dep, t.Members[0].Reg)
+						if pr := m.regs[t.Members[0].Reg]; pr.Life == LTransient && pr.Form != FInstance {
+							a.add("C03", "C03.count", "site-without-construction/"+regShape(r), "r%d#%d: request site %s of transient r%d received no instance (no constructor run for this site)", inv.Reg, inv.N, dep, pr.ID)
+						}
 					}
 				}
 			}
@@ -494,7 +497,7 @@ func (a *Analysis) ruleLifetimes() {
 			if r.Life != LSingleton || r.Form == FInstance || !m.V.Accepted[r.ID] {
 				continue
 			}
-			if okInv[r.ID] != 1 && !a.anyFault() {
+			if okInv[r.ID] != 1 && !a.ctorFailFault() {
 				a.add("C01", "C01.once", regShape(r), "singleton constructor r%d ran %d times (Build succeeded)", r.ID, okInv[r.ID])
 			}
 		}
@@ -521,6 +524,18 @@ func stackHead(stk string) string {
 func (a *Analysis) nilFaultFired(reg int) bool {
 	for _, f := range a.h.faults {
 		if f.Kind == FCtorNil && f.Fired > 0 && (reg < 0 || f.Reg == reg) {
+			return true
+		}
+	}
+	return false
+}
+
+// ctorFailFault: did a constructor return an error or panic? (A constructor made
+// to return nil, or a failing Close, does not excuse a singleton constructor from
+// running exactly once in a Build that succeeded.)
+func (a *Analysis) ctorFailFault() bool {
+	for _, f := range a.h.faults {
+		if f.Fired > 0 && (f.Kind == FCtorErr || f.Kind == FCtorPanic) {
 			return true
 		}
 	}
@@ -926,10 +941,17 @@ func (a *Analysis) ruleOpValidity() {
 				if a.buildOK {
 					a.add("C08", "C08.found", "missing-dep", "op%d %s failed with not-found after a successful Build: %v", op.GID, op.Op, op.Err)
 				}
+			} else if a.nilFaultFired(-1) && (hasClass(op.Classes, ESingletonNotInit) || hasClass(op.Classes, ENilInstance)) {
+				// a constructor was made to return nil for this output: there is no instance to hand out.
+				// The statement does not prescribe the error class of that situation.
+				just = true
 			} else {
 				why = append(why, "not-found for a registered identity")
 				a.add("C08", "C08.found", "registered", "op%d %s failed with not-found although everything it needs is registered: %v", op.GID, op.Op, op.Err)
 			}
+		}
+		if !just && a.nilFaultFired(-1) && (hasClass(op.Classes, ESingletonNotInit) || hasClass(op.Classes, ENilInstance)) {
+			just = true
 		}
 		if hasClass(op.Classes, EScopeDisposed) || hasClass(op.Classes, EProviderDisposed) {
 			if overlap {
@@ -1017,6 +1039,59 @@ func (a *Analysis) descendantOf(hid, anc int) bool {
 	return false
 }
 
+// C11.scopesFirst in any schedule: an instance constructed inside an operation
+// that succeeded is held by its scope, and provider.Close disposes every scope
+// before any singleton - so such an instance is closed before the first
+// singleton is, and certainly by the time a provider Close has returned. (An
+// instance whose operation failed may have been rejected by a scope that was
+// closing; it is closed on the spot, whenever that is, and is not judged here.)
+func (a *Analysis) ruleScopesBeforeSingletons() {
+	m := a.m
+	firstSing, singInst := 0, -1
+	for _, in := range a.h.insts {
+		if in.Inv < 0 || in.closeCount == 0 || !m.regs[in.Reg].Outs[in.OutIdx].Concrete.IsDisp() {
+			continue
+		}
+		if a.ownerOf(in).Kind == OwProvider && (firstSing == 0 || in.closeSeq[0] < firstSing) {
+			firstSing, singInst = in.closeSeq[0], in.ID
+		}
+	}
+	provClosed := 0 // earliest return of a provider Close
+	for _, op := range a.ops {
+		if (op.Op.Kind == OpClose || op.Op.Kind == OpFinish) && op.Handle == 0 && op.Done && op.Panic == nil && op.Aborted == "" {
+			if provClosed == 0 || op.EndSeq < provClosed {
+				provClosed = op.EndSeq
+			}
+		}
+	}
+	if firstSing == 0 && provClosed == 0 {
+		return
+	}
+	for _, in := range a.h.insts {
+		if in.Inv < 0 || !m.regs[in.Reg].Outs[in.OutIdx].Concrete.IsDisp() {
+			continue
+		}
+		inv := a.h.invs[in.Inv]
+		if inv.Outcome != OutOK || inv.Op < 0 {
+			continue
+		}
+		op := a.ops[inv.Op]
+		if !op.Done || op.Err != nil || op.Panic != nil || op.Aborted != "" {
+			continue
+		}
+		ow := a.ownerOf(in)
+		if ow.Kind != OwScope {
+			continue
+		}
+		switch {
+		case in.closeCount == 0 && provClosed > 0 && a.finOp != nil && a.finOp.Done:
+			a.add("C11", "C11.scopesFirst", "escaped", "instance #%d (r%d, created by op%d %s which succeeded, owner %s) was never closed although provider Close returned (seq %d): its scope outlived the provider's singletons", in.ID, in.Reg, op.GID, op.Op, ow, provClosed)
+		case in.closeCount > 0 && firstSing > 0 && in.closeSeq[0] > firstSing:
+			a.add("C11", "C11.scopesFirst", "late", "instance #%d (r%d, created by op%d %s which succeeded, owner %s) was closed at seq %d, after singleton instance #%d had been closed (seq %d)", in.ID, in.Reg, op.GID, op.Op, ow, in.closeSeq[0], singInst, firstSing)
+		}
+	}
+}
+
 // C11: disposal order.
 func (a *Analysis) ruleOrder() {
 	m := a.m
@@ -1053,6 +1128,13 @@ func (a *Analysis) ruleOrder() {
 		}
 		for _, it := range items {
 			inv := a.h.invs[it.in.Inv]
+			if !exact {
+				// a holder whose operation overlapped the Close of its scope and was refused is
+				// disposed on the spot (C13), not as part of the scope's ordered disposal
+				if inv.Op < 0 || !a.ops[inv.Op].Done || a.ops[inv.Op].Err != nil || a.ops[inv.Op].Panic != nil {
+					continue
+				}
+			}
 			for _, ar := range inv.Args {
 				for _, dep := range ar.Insts {
 					d, ok := inList[dep]
@@ -1078,6 +1160,7 @@ func (a *Analysis) ruleOrder() {
 			}
 		}
 	}
+	a.ruleScopesBeforeSingletons()
 	if !exact {
 		return
 	}
@@ -1130,6 +1213,10 @@ func (a *Analysis) ruleOrder() {
 				ow := a.ownerOf(in)
 				inSubtree := ow.Kind == OwScope && (a.descendantOf(ow.ID, op.Handle) || op.Handle == 0)
 				if !inSubtree {
+					// the provider's own instances (singletons, root scope): closed by the time its Close returns
+					if op.Handle == 0 && (ow.Kind == OwProvider || ow.Kind == OwRoot) && (in.closeCount == 0 || in.closeSeq[0] > op.EndSeq) {
+						a.add("C12", "C12.all", "left-open/"+ownerKind(ow), "provider Close (op%d) returned while instance #%d (r%d, owner %s) had not been closed", op.GID, in.ID, in.Reg, ow)
+					}
 					continue
 				}
 				late := in.closeCount == 0 || in.closeSeq[0] > op.EndSeq
